@@ -69,12 +69,17 @@ class datetime64(generic):
     def __new__(cls, v=None, unit=None):
         return _make_datetime(v, unit)
 
-class timedelta64(generic):
+class timedelta64(signedinteger):
     def __new__(cls, v=None, unit="generic"):
         if isinstance(v, str) and v in ("NaT", "nat"):
             return SymTD(INT64_MIN, unit)
+        if isinstance(v, SymTD): return v
         if isinstance(v, (int, SymI64)) and not isinstance(v, builtins.bool):
             return SymTD(SymI64.lift(v), unit)
+        if isinstance(v, _dtm.timedelta):
+            return SymTD(v // _dtm.timedelta(microseconds=1), "us")
+        if v is None:
+            return SymTD(INT64_MIN, unit)
         raise ModelGap(f"timedelta64({v!r})")
 
 for _c in (generic, number, integer, signedinteger, unsignedinteger, inexact, floating, complexfloating,
@@ -311,8 +316,13 @@ def unbox(v, dt):
         d = _make_datetime(v, None if dt.unit == "generic" else dt.unit)
         return d.e if dt.unit in ("generic", d.unit) else d.to_unit(dt.unit)
     if k == "m":
-        if isinstance(v, SymTD): return v.e
-        raise ModelGap("store into timedelta array")
+        if isinstance(v, SymTD):
+            if dt.unit in (v.unit, "generic") or v.unit == "generic": return v.e
+            return z3.If(v.e == INT64_MIN, v.e, v.e * symx.unit_ratio(v.unit, dt.unit))
+        if isinstance(v, _dtm.timedelta):
+            return z3.BitVecVal((v // _dtm.timedelta(microseconds=1)) // symx._UNIT_FACTOR[dt.unit if dt.unit != "generic" else "us"], 64)
+        if v is None: return z3.BitVecVal(INT64_MIN, 64)
+        raise ValueError("Could not convert object to NumPy timedelta")
     if k in "TU":
         if v is None:
             if k == "T" and dt.na_object is not None: return dt.na_object
@@ -859,7 +869,11 @@ def array(obj, dtype_=None, copy=True, ndmin=0, **kw):
                 units = {x.unit for x in obj}
                 u = builtins.min(units - {"generic"}, key=lambda u: symx._UNIT_FACTOR[u], default="generic")
                 dt = _dt_dtype("M", u)
-        elif "m" in kset: raise ModelGap("timedelta array")
+        elif "m" in kset:
+            if kset != {"m"}: dt = dtype(object)
+            else:
+                units = {getattr(x, "unit", "us") for x in obj} - {"generic"}
+                dt = _dt_dtype("m", builtins.min(units, key=lambda u: symx._UNIT_FACTOR[u], default="generic"))
         else:
             dt = dtype({"b": builtins.bool, "i": int, "f": float}[builtins.max(kset, key="bif".index)])
     else:
@@ -869,6 +883,9 @@ def array(obj, dtype_=None, copy=True, ndmin=0, **kw):
                 return ndarray._make(list(range(len(obj))), dt, nd=2)
             raise ValueError("setting an array element with a sequence. The requested array has an inhomogeneous "
                              "shape after 1 dimensions.")
+        if dt.kind == "m" and dt.unit == "generic":
+            units = {x.unit for x in obj if isinstance(x, SymTD)} - {"generic"}
+            dt = _dt_dtype("m", builtins.min(units, key=lambda u: symx._UNIT_FACTOR[u], default="generic"))
         if dt.kind == "M" and dt.unit == "generic":
             units = {x.unit for x in obj if isinstance(x, SymDT)} - {"generic"}
             for x in obj:
